@@ -44,7 +44,9 @@ func f2(i int64) func([]int64) []int64 {
 func f3(i int64) func(any) any {
 	return func(x any) any {
 		if x == nil {
-			return []int64{i}
+			// a nil INTERFACE value: counted as the list [-1000] (a typed nil slice inside the interface is the empty
+			// list - the two must not be confused on the way through the pipeline)
+			return []int64{-1000, i}
 		}
 		l := x.([]int64)
 		r := make([]int64, 0, len(l)+1)
@@ -296,10 +298,14 @@ func main() {
 					c.Input = []int64{x}
 					c.Observed = []int64{run01(n, fam, x)}
 				case 3:
-					// the nil interface value as argument (k even) or a one-element list
-					if k%2 == 0 {
+					// the nil interface value as argument, a typed nil slice inside the interface (written [-7777]), or a
+					// one-element list
+					if k%3 == 0 {
 						c.Input = []int64{}
 						c.Observed = run3(n, nil)
+					} else if k%3 == 1 {
+						c.Input = []int64{-7777}
+						c.Observed = run3(n, []int64(nil))
 					} else {
 						c.Input = []int64{-7}
 						c.Observed = run3(n, []int64{-7})
